@@ -23,8 +23,7 @@ Print Assumptions serialise_update.
 (* node.delete(): holders searched in the order list(parent.args) + [parent.expr]; the
    holder that contains the object is found, the object's own index is removed *)
 Theorem C05_delete : forall root hp i h x,
-  get root hp = Some h -> nth_error (body_of h) i = Some x ->
-  supports h = true -> arg_depth_ok hp = true ->
+  get root hp = Some h -> nth_error (body_of h) i = Some x -> arg_depth_ok hp = true ->
   exists root', delete root hp i = Done root' /\ splice_at root hp i 1 [] = Some root' /\
     estr root  = span_pre root hp ++ estr_list (firstn i (body_of h)) ++ estr x
                    ++ estr_list (skipn (S i) (body_of h)) ++ span_post root hp /\
@@ -35,8 +34,7 @@ Print Assumptions C05_delete.
 
 (* parent.remove(node) for a node of the parent's own list *)
 Theorem C05_remove : forall root hp i h x,
-  get root hp = Some h -> nth_error (body_of h) i = Some x ->
-  supports h = true -> ends_in_arg hp = false ->
+  get root hp = Some h -> nth_error (body_of h) i = Some x -> ends_in_arg hp = false ->
   exists root', remove root hp i = Done root' /\ splice_at root hp i 1 [] = Some root' /\
     estr root  = span_pre root hp ++ estr_list (firstn i (body_of h)) ++ estr x
                    ++ estr_list (skipn (S i) (body_of h)) ++ span_post root hp /\
@@ -45,10 +43,12 @@ Theorem C05_remove : forall root hp i h x,
 Proof. exact EditProofs.C05_remove_local. Qed.
 Print Assumptions C05_remove.
 
-(* node.replace_with( *new), new = any list of fresh nodes / strings *)
+(* node.replace_with( *new), new = any list of fresh nodes / strings.  The third hypothesis
+   (the holder accepts contents once the child is out: holder.insert follows
+   holder.remove) fails only for a command that is not \item holding this single content *)
 Theorem C05_replace_with : forall root hp i h x new,
   get root hp = Some h -> nth_error (body_of h) i = Some x ->
-  supports h = true -> arg_depth_ok hp = true ->
+  supports (set_body h (splice i 1 [] (body_of h))) = true -> arg_depth_ok hp = true ->
   exists root', replace_with root hp i new = Done root' /\
     splice_at root hp i 1 new = Some root' /\
     estr root  = span_pre root hp ++ estr_list (firstn i (body_of h)) ++ estr x
@@ -61,7 +61,8 @@ Print Assumptions C05_replace_with.
 (* parent.replace(child, *new): child in the parent's list or in one of its argument groups *)
 Theorem C05_replace : forall root pp hp i P h x new,
   get root pp = Some P -> (hp = pp \/ exists j, hp = pp ++ [SArg j]) ->
-  get root hp = Some h -> nth_error (body_of h) i = Some x -> supports h = true ->
+  get root hp = Some h -> nth_error (body_of h) i = Some x ->
+  supports (set_body h (splice i 1 [] (body_of h))) = true ->
   exists root', replace_via root pp hp i new = Done root' /\
     splice_at root hp i 1 new = Some root' /\
     estr root  = span_pre root hp ++ estr_list (firstn i (body_of h)) ++ estr x
@@ -96,7 +97,7 @@ Print Assumptions C05_append.
 
 (* textually identical twins in one list: each can be deleted without touching the other *)
 Theorem C05_twins : forall root hp h i j x y,
-  get root hp = Some h -> supports h = true -> arg_depth_ok hp = true ->
+  get root hp = Some h -> arg_depth_ok hp = true ->
   nth_error (body_of h) i = Some x -> nth_error (body_of h) j = Some y ->
   estr x = estr y -> (i < j)%nat ->
   (exists root', delete root hp j = Done root' /\
@@ -159,3 +160,12 @@ Theorem C05_container_example :
               (2 <= length (body_of h))%nat.
 Proof. exact EditProofs.container_example. Qed.
 Print Assumptions C05_container_example.
+
+Theorem C05_replace_hypothesis_example :
+  let root := parsed doc_arg in
+  exists h x, get root [SBody 0; SArg 0] = Some h /\ nth_error (body_of h) 0 = Some x /\
+              supports (set_body h (splice 0 1 [] (body_of h))) = true /\
+              done_str (replace_with root [SBody 0; SArg 0] 0 [EStr s_S])
+              = Some [92; 97; 123; 83; 125; 92; 99]%N.
+Proof. exact EditProofs.replace_hypothesis_example. Qed.
+Print Assumptions C05_replace_hypothesis_example.
